@@ -50,7 +50,9 @@ func init() {
 	})
 	wrap("C06", func(c *core.Ctx) { freshObjects(c, "R3", "RxTransaction") })
 	wrap("C07", func(c *core.Ctx) {
-		shareFrom(c, "C06", "P9", func(o *core.Obligation) bool { return has(o, "R4", "/R4/timer-armer", "/R4/timer-started", "/R4/entry-released") }, 2, "receive-transaction release rules")
+		shareFrom(c, "C06", "P9", func(o *core.Obligation) bool {
+			return has(o, "R4", "/R4/timer-armer", "/R4/timer-started", "/R4/entry-released")
+		}, 2, "receive-transaction release rules")
 		nilMapWrites(c, "P2")
 	})
 	wrap("C08", func(c *core.Ctx) {
